@@ -96,3 +96,22 @@ PROPS["C18"] = {"components": ["client"], "monitor_props": ["C18"], "trusted_bas
     "assumptions": ["set_tower_status is never called with Misbehaving (only flag_misbehaving_tower sets it): true of every call site in the plugin",
                     "a crash point is the boundary of a DBM transaction (sqlite's atomic commit is trusted); a reload after every prefix therefore covers every crash point"],
     "partial": ""}
+
+TB_PLUGIN = TB_CLIENT + [
+    "the hand-written model of the plugin's handler / retry manager / retriers / commands at stable points (Model/Plugin.lean), tied to /repo by the binary-level run: the real watchtower-client process over its stdin/stdout protocol against scripted fake towers",
+    "the fake towers, the plugin driver, the stable-point detection (no change for 1.6 s, or for the whole retry budget + 3.5 s while a tower is being retried) are harness code",
+    "modelled, not verified: cln-plugin's JSON-RPC runtime, tokio scheduling, reqwest, the backoff crate; real time is not in the model (measured by monitors)",
+]
+PROPS["C05"] = {"components": ["plugin"], "monitor_props": ["C05"], "trusted_base": TB_PLUGIN,
+    "assumptions": ["'notified' = the hook call has returned (a kill while the handler is still looping over the towers interrupts the notification itself)",
+                    "crash points are transaction boundaries (sqlite's atomic commit is trusted); kills in the scenarios happen at stable points, the theorem never_lost covers every boundary",
+                    "remove_pending_appointment is only called right after the receipt or the rejection of the same (tower, locator) was stored (its two call sites in Retrier::run)"],
+    "partial": "proved: recorded in AT LEAST one of accepted/pending/invalid at every transaction boundary of every guarded operation sequence, after every notification for every listed tower, and through every event history (all_due_recorded). 'EXACTLY one' is proved for the results of the two moves and checked by the monitor at every stable point of the scenarios; between the two writes of a move both records exist (example in Props/C05.lean), which a kill exactly there would leave in the file until the next start completes the move: not exhibited on the real binary, so not listed as a finding."}
+PROPS["C13"] = {"components": ["plugin"], "monitor_props": ["C13"], "trusted_base": TB_PLUGIN,
+    "assumptions": ["tower behaviour is constant while a retrier runs (the scenarios change it only at stable points)",
+                    "an idle retrier implies status unreachable (holds in every compared state after fix 4463be4; hypothesis of manual_retry_documented_states)"],
+    "partial": "real-time clauses (delivery within the configured delays, request rate) are measured on the real binary with tolerances, not proved; 'at no time two retry loops for one tower' is structural in the model (one optional retrier per tower) and is not separately observable on the binary except through duplicate requests; the timed auto-retry scenarios are monitor-only (not compared with the stable-point model)."}
+PROPS["C14"] = {"components": ["plugin"], "monitor_props": ["C14"], "trusted_base": TB_PLUGIN + [
+        "signature verification and recovery are the abstract scheme of C17; replies reach the model already classified (wrong signer / unparsable / ...)"],
+    "assumptions": ["the classification of a reply by net::http (process_post_response, send_appointment) is total and panic-free: checked on the real binary for every reply kind of the scenarios (monitor no_answer), not proved for all byte strings"],
+    "partial": "what the client does with each class of reply is proved; that no byte string makes the parsing layer itself panic is tested (non-JSON, wrong shape, empty, error objects, undecodable signature, wrong signer), not proved."}
